@@ -393,6 +393,24 @@ pub fn shape(name: &str) -> Logical {
             let _ = n;
             l
         }
+        // as multi2 with contents of a few bytes (the loom engines keep one shadow cell per decoded
+        // byte and loom's version counters are 16 bits wide)
+        "tiny3" => {
+            let mut l = shape("multi2");
+            l.name = name.into();
+            l.contents = vec![
+                item(9, Entropy::Low, Hint::Yes, 1),
+                item(7, Entropy::High, Hint::No, 2),
+                item(0, Entropy::Low, Hint::Detect, 3),
+                item(6, Entropy::Low, Hint::Yes, 4),
+                item(5, Entropy::High, Hint::No, 5),
+            ];
+            l.extra_packs = vec![
+                vec![item(8, Entropy::Low, Hint::Yes, 21), item(4, Entropy::High, Hint::No, 22)],
+                vec![item(3, Entropy::High, Hint::No, 23), item(10, Entropy::Low, Hint::Yes, 24)],
+            ];
+            l
+        }
         // more than 1024 contents in one raw cluster: the content-info table is a checked block above 4 KiB
         "many" => Logical {
             name: name.into(),
